@@ -246,13 +246,11 @@ Definition check_op (m : cmp_mode) (u : universe) (bh : behaviour) (prev : list 
                       (* the body: the original Call with the Redefine options plus the received values *)
                       let recv := match rev (run_trace rn1) with
                                   | EExec _ args _ _ :: _ => args | _ => [] end in
-                      (* v.Field(i).Interface() hands the wrapper the DYNAMIC value again *)
-                      let dyn := fun (v : value) =>
-                        match find (fun iv => v_id (snd iv) =? v_id v) given with
-                        | Some iv => snd iv | None => v end in
+                      (* the wrapper forwards the struct fields themselves: each value is known
+                         under the declared type of its input (after the D20 repair) *)
                       let inner_opts := opts ++ map (fun fv => let '(fld, v) := fv in
-                                                     if Base.eqb (f_name fld) EmptyString then ATyped [Some (dyn v)]
-                                                     else ANamed (f_name fld) (Some (dyn v)))
+                                                     if Base.eqb (f_name fld) EmptyString then ATyped [Some v]
+                                                     else ANamed (f_name fld) (Some v))
                                                     (combine (fn_in (redef_fn ft ins)) recv) in
                       let r := call u bh f defaults inner_opts w (run_tape rn1) in
                       (res_code_m m r (fun rn =>
